@@ -185,7 +185,7 @@ func (o *C03) AfterEnd(w *World) {
 // C02 — attestation quorum: >= 66 % of bonded power, distinct validators, legitimate voters.
 type C02 struct {
 	BaseOracle
-	cast map[string]bool // chain/nonce/val -> a claim tx by that validator (or its orchestrator) succeeded
+	cast map[string]bool   // chain/nonce/val -> a claim tx by that validator (or its orchestrator) succeeded
 	said map[string]string // chain/nonce/val -> the event that validator reported, field by field
 }
 
